@@ -265,9 +265,22 @@ func runWithAtoms(f *ssa.Function, o exprOpts, av atomFn, watch func(ssa.Instruc
 	return runWithAtomsChoice(f, o, av, w2)
 }
 
+// runWithAtomsEnv is runWithAtoms whose watcher can evaluate values at the instruction it sees.
+func runWithAtomsEnv(f *ssa.Function, o exprOpts, av atomFn, watch func(ssa.Instruction, intEnv)) (*ssa.Return, bool) {
+	return runWithAtomsFull(f, o, av, watch)
+}
+
 // runWithAtomsChoice is runWithAtoms whose watcher also sees which incoming
 // edge every non-integer phi took on the path followed (resolveChoice).
 func runWithAtomsChoice(f *ssa.Function, o exprOpts, av atomFn, watch func(ssa.Instruction, map[*ssa.Phi]ssa.Value)) (*ssa.Return, bool) {
+	var w func(ssa.Instruction, intEnv)
+	if watch != nil {
+		w = func(in ssa.Instruction, e intEnv) { watch(in, e.choice) }
+	}
+	return runWithAtomsFull(f, o, av, w)
+}
+
+func runWithAtomsFull(f *ssa.Function, o exprOpts, av atomFn, watch func(ssa.Instruction, intEnv)) (*ssa.Return, bool) {
 	memo := map[ssa.Value]string{}
 	env := intEnv{params: map[ssa.Value]int64{}, lens: map[ssa.Value]int64{}, unknown: map[ssa.Value]bool{}, cells: map[ssa.Value]int64{}, skipLoops: true, choice: map[*ssa.Phi]ssa.Value{}}
 	env.opaque = func(v ssa.Value) (int64, bool) {
@@ -290,7 +303,7 @@ func runWithAtomsChoice(f *ssa.Function, o exprOpts, av atomFn, watch func(ssa.I
 		return av(s)
 	}
 	if watch != nil {
-		env.watch = func(in ssa.Instruction, e intEnv) { watch(in, e.choice) }
+		env.watch = watch
 	}
 	n := 4000
 	env.fuel = &n
